@@ -261,7 +261,7 @@ class MultiWcsProcessor(object):
 
     def _tile_parallel(self, pio, reproject_function, cli_progress, parallel, **kwargs):
         import multiprocessing as mp
-        from .par_util import check_workers, put_to_workers
+        from .par_util import check_workers, finish_queue, put_to_workers
 
         # Start up the workers
 
@@ -287,8 +287,7 @@ class MultiWcsProcessor(object):
 
         # Wrap up
 
-        queue.close()
-        queue.join_thread()
+        finish_queue(queue, workers, done_event)
         done_event.set()
 
         for w in workers:
